@@ -170,6 +170,15 @@ def make_job(Lmod, base, name, stop_at_error=True, first_char=None):
         except StopStep:
             tok = None
             stopped = True
+        except (E.HarnessError, E.Abort):
+            raise
+        except RecursionError:
+            raise
+        except Exception as e:
+            # nothing but the error callback may leave token(): an exception escaping here escapes parse() too
+            m = eng.model()
+            return {"cls": "exception", "viol": {"sig": "lexer-step:exception " + type(e).__name__, "what": f"{type(e).__name__} escaped from CLexer.token(): {e}",
+                                                  "text": base.witness(m), "istype": [bool(r) for _, r in looked], "exc": type(e).__name__}}
         pos1, line1, ls1, file1 = lx._pos, lx._lineno, lx._line_start, lx._filename
         pending = lx._pending_tok
         n = len(text)
@@ -323,6 +332,10 @@ def concrete_reference(text, ell, delta):
 def replay(rp, v):
     """re-run the step concretely on the untouched lexer with l=7, d=3 and compare with the concrete reference"""
     ell, delta = 7, 3
+    if v.get("exc"):
+        r = rp.ask(op="lex", text=v["text"])
+        v["replay_outcome"] = r
+        return r.get("outcome") == "exc" and r["exc"]["type"] == v["exc"]
     r = rp.ask(op="exec", code=REPLAY_CODE.format(text=v["text"], istype=v["istype"], ell=ell, delta=delta))
     v["replay_outcome"] = r
     if not isinstance(r, dict) or "tok" not in r:
